@@ -86,6 +86,21 @@ class HistEngine(EngineBase):
         self.parse_ok_extra = [t for t in self.extra_texts if self.tc.data.get(t, ("exc",))[0] == "ok"]
         self.catalogue_ok = [t for t in self.catalogue if self.tc.data.get(t, ("exc",))[0] == "ok"]
         self.failing_ok = [t for t in self.failing if self.tc.data.get(t, ("exc",))[0] == "ok"]
+        # themes: corpus instructions grouped by the helper functions / macros / aliases their text mentions.
+        # History bugs are usually keyed by a feature (a parameter object, a macro, a sub-routine): a run draws a
+        # third of its inputs from one theme so that two users of the same rare feature meet in one history.
+        import re as _re
+        themes: dict[str, list] = {}
+        for n in self.names:
+            toks = set()
+            for p in self.beh[n]:
+                toks |= set(_re.findall(r"\b([A-Za-z_]\w*)\s*\(", p))
+                toks |= set(_re.findall(r"\bHEX_REG_ALIAS_\w+", p))
+            for t in toks:
+                themes.setdefault(t, []).append(n)
+        self.themes = {t: v for t, v in sorted(themes.items()) if 2 <= len(v)}
+        self.theme_keys = sorted(self.themes)
+        self._theme = None
         self.sim = self.farm.client(wid if wid < self.nslots - 1 else self.nslots - 1)
         if not hasattr(self, "refs"):
             self.refs: dict = {}
@@ -120,6 +135,9 @@ class HistEngine(EngineBase):
     # ------------------------------------------------------------------ workload pieces
     def gen_input(self, ch: Chooser, want_fail_weight=2):
         """-> (name, parts, origin)"""
+        if self._theme is not None and ch.chance(1, 3, "themed"):
+            n = ch.choice(self.themes[self._theme], "theme-insn")
+            return n, list(self.beh[n]), "corpus"
         k = ch.weighted([("corpus", 10), ("compound", 3 if self.compound_names else 0), ("part", 2 if self.compound_names else 0),
                          ("cat", 6 if self.catalogue_ok else 0), ("fail", want_fail_weight if self.failing_ok else 0),
                          ("subcaller", 1)], "input")
